@@ -491,5 +491,9 @@ def run(chk):
     chk.obligation("model + scripted oracles build: make State/EvalRestoreSweep.vo", ok, log[-1500:] if not ok else "")
     vlib.use_repo_in_process()
     if ok:
-        correspondence(chk)
+        try:
+            correspondence(chk)
+        except Exception:  # noqa: BLE001  a broken model / tie must not stop the search for a failing input
+            import traceback
+            chk.obligation("correspondence machinery ran", False, traceback.format_exc()[-1500:])
     oracle(chk)
